@@ -1,7 +1,7 @@
 (* C10 property theorems: statements only, each closed by `exact`.
    `current` = the code as it is now (repairs f11f464, 127fbf4 applied); `legacy` = the code before
-   those repairs (two refutations kept as the record of the repaired defects); `repaired` = the code
-   with the proposed escaping of string constants. *)
+   those repairs (refutations kept as the record of the repaired defects); `prequote` = the code
+   before string constants were escaped (60fb795). *)
 From Coq Require Import ZArith List Bool String Permutation Sorted.
 From PAFC10 Require Import Model Proofs Proofs2 Proofs3 Proofs4 Proofs5 Proofs6 Witness.
 Import ListNotations.
@@ -11,7 +11,7 @@ Import ListNotations.
 (* FULL STATEMENT (all predicates, all well-formed databases): the compiled query holds of a fit
    exactly when the predicate is true on the stored objects -- REFUTED for the current code
    (Or-merge over different tables; further witnesses in Witness.v: negated info test, negated test on
-   a NULL column, LIKE semantics, unescaped quote, shadowed path segment) *)
+   a NULL column, LIKE semantics, shadowed path segment) *)
 Theorem C10_exact_refuted :
   exists p q f, compile current p = Ok q /\ wf_pred p = true /\ wf_fit f = true /\ sem q f <> eval p f.
 Proof. exact exact_refuted. Qed.
@@ -55,7 +55,7 @@ Proof. exact pipeline_exact. Qed.
 
 (* the aggregator state machine on query, order_by*, slice* (no step) is that pipeline *)
 Theorem C10_ops_canonical_partial : forall top_only db p q keys slices,
-  has_shadow p = false -> pred_quote p = false -> compile current p = Ok q -> guard_db p db ->
+  has_shadow p = false -> compile current p = Ok q -> guard_db p db ->
   run_ops current top_only db (OQuery p :: order_ops keys ++ slice_ops slices) =
   Ok (spec_slices top_only (ordered keys (filter (eval p) db)) slices, keys).
 Proof. exact ops_canonical_exact. Qed.
@@ -112,6 +112,16 @@ Proof. exact legacy_exact_refuted. Qed.
 Theorem C10_legacy_slice_refuted :
   exists L sl, run_slices legacy false L [sl] <> spec_slices false L [sl].
 Proof. exact legacy_slice_refuted. Qed.
+
+(* before 60fb795 a constant containing a single quote made the query raise; now it is an ordinary constant *)
+Theorem C10_prequote_refuted :
+  exists p f, eval p f = true /\ model_query prequote [f] p = Err ESql /\
+              exists l, model_query current [f] p = Ok l /\ map fid l = [fid f].
+Proof. exact prequote_refuted. Qed.
+
+(* string constants never make the current code raise: execution fails only for a shadowed path segment *)
+Theorem C10_no_sql_error : forall db p, model_query current db p <> Err ESql.
+Proof. exact no_sql_error. Qed.
 
 Print Assumptions C10_exact_partial.
 Print Assumptions C10_pipeline_partial.
